@@ -100,8 +100,11 @@ func C02(c *ev.Ctx) {
 		return
 	}
 	rr := rng(c, 2)
-	npk := c.Pick(16, 160)
 	perPkg := 9
+	npk := c.Pick(16, 160)
+	if need := len(goosegen.Catalogue)/perPkg + 4; npk < need {
+		npk = need // every catalogue construct at least once in every run
+	}
 	var pkgs []tvPackage
 	items := map[string][]c02Item{} // package -> items
 	n := 1000
